@@ -139,12 +139,10 @@ func ReadUint32(rd io.Reader) (uint32, error) {
 // ReadNBytes reads n bytes from the reader
 func ReadNBytes(n int, rd io.Reader) ([]byte, error) {
 	var b []byte = make([]byte, n)
-	num, err := rd.Read(b)
 
-	// if num is correct, we are not interested in io.EOF errors
-	if num == n {
-		err = nil
-	}
+	// a reader may deliver less than asked for without error, so read until all n bytes are there.
+	// io.EOF is returned if there was no data at all, io.ErrUnexpectedEOF if the data ended early.
+	_, err := io.ReadFull(rd, b)
 
 	return b, err
 }
